@@ -1376,3 +1376,23 @@ def _dtypebuild_bits(w, c):
 @op('dtypeparse_bits')
 def _dtypeparse_bits(w, c):
     return w.bs.Dtype('bits').parse(w.operand(c['xs'][0]))
+
+
+@op('newscaled')
+def _newscaled(w, c):
+    """Dtype(name, n, scale=2**k).build(value)"""
+    name, n, k = c['sa'][0], c['ia'][0], c['ia'][1]
+    scale = 2 ** k if k >= 0 else 2.0 ** k
+    if len(c['sa']) > 1 and c['sa'][1] == 'float':
+        scale = float(scale)
+    return w.bs.Dtype(name, n, scale=scale).build(pyval(w, c['va'][0]))
+
+
+@op('interpscaled')
+def _interpscaled(w, c):
+    name, n, k = c['sa'][0], c['ia'][0], c['ia'][1]
+    scale = 2 ** k if k >= 0 else 2.0 ** k
+    r = w.bs.Dtype(name, n, scale=scale).parse(T(w, c))
+    if isinstance(r, int) and not isinstance(r, bool):
+        return r
+    return float(r) if isinstance(r, (int, float)) else enc.OPAQUE
